@@ -29,3 +29,19 @@ Section Arr.
   Definition nansum (l : list T) : T :=
     fold_left (fun acc v => if isnan_ v then acc else add acc v) l (ofZ 0).
 End Arr.
+
+(** additions for the repaired analyses: NaN-ignoring reductions and boolean masks *)
+Section ArrNan.
+  Context {O : Ops}.
+  Notation T := (T O).
+  Definition notnan (v : T) : bool := negb (isnan_ v).
+  (** np.nanmean / np.nanmax: the reduction over the entries that are not NaN *)
+  Definition nanmean_ (l : list T) : T := mean_ (filter notnan l).
+  Definition nanmax_list (l : list T) : T := max_list (filter notnan l).
+  (** arr[mask] *)
+  Fixpoint lmask (l : list T) (m : list bool) : list T :=
+    match l, m with
+    | x :: l', b :: m' => if b then x :: lmask l' m' else lmask l' m'
+    | _, _ => []
+    end.
+End ArrNan.
